@@ -3,6 +3,7 @@ package c20
 import (
 	"bytes"
 	"context"
+	"encoding/base64"
 	"encoding/json"
 	"fmt"
 	"os"
@@ -13,6 +14,7 @@ import (
 	"sync"
 	"sync/atomic"
 	"time"
+	"unicode/utf8"
 
 	"verif/harness/props"
 	"verif/harness/tool"
@@ -50,6 +52,44 @@ func Oracle(c *props.Case) props.Verdict {
 		return oracleStatus(c)
 	}
 	return props.DiscardV("unknown arm " + c.Param("arm"))
+}
+
+// A saved case is JSON, which cannot hold bytes that are not valid UTF-8.
+// Such a file is stored under "<name>#base64" and decoded here, so that
+// the replay runs on exactly the bytes that were evaluated.
+const b64Suffix = "#base64"
+
+func encodeFiles(files tool.Files) tool.Files {
+	for name, content := range files {
+		if !utf8.ValidString(content) {
+			delete(files, name)
+			files[name+b64Suffix] = base64.StdEncoding.EncodeToString([]byte(content))
+		}
+	}
+	return files
+}
+
+func decodeFiles(files tool.Files) tool.Files {
+	enc := false
+	for name := range files {
+		if strings.HasSuffix(name, b64Suffix) {
+			enc = true
+		}
+	}
+	if !enc {
+		return files
+	}
+	res := make(tool.Files, len(files))
+	for name, content := range files {
+		if n, ok := strings.CutSuffix(name, b64Suffix); ok {
+			if b, err := base64.StdEncoding.DecodeString(content); err == nil {
+				res[n] = string(b)
+				continue
+			}
+		}
+		res[name] = content
+	}
+	return res
 }
 
 func devSpoc(c *props.Case) (string, string) {
@@ -122,7 +162,7 @@ func oracleInProc(c *props.Case) props.Verdict {
 		return viaChild(c, false)
 	}
 	dev, spoc := devSpoc(c)
-	res, hung := compareWatched(c.Files, dev, spoc)
+	res, hung := compareWatched(decodeFiles(c.Files), dev, spoc)
 	if hung {
 		if isChild() {
 			return props.FailV("hang:"+c.Family,
@@ -278,7 +318,11 @@ func viaChild(c *props.Case, confirmHang bool) props.Verdict {
 	wd := watchdogFor(childWD, c.Files)
 	ctx, cancel := context.WithTimeout(context.Background(), wd+60*time.Second)
 	defer cancel()
-	cmd := exec.CommandContext(ctx, os.Args[0], "-test.run", "^TestReplay$", "-test.v",
+	self, err := os.Executable()
+	if err != nil {
+		return props.DiscardV("harness:cannot find own executable")
+	}
+	cmd := exec.CommandContext(ctx, self, "-test.run", "^TestReplay$", "-test.v",
 		"-test.timeout", "0", "-replayfile", file)
 	cmd.Dir = dir
 	cmd.Env = append(os.Environ(), "C20_CHILD=1", "C20_WATCHDOG="+childWD, "VERIF_EVID_DIR=")
@@ -314,6 +358,7 @@ func viaChild(c *props.Case, confirmHang bool) props.Verdict {
 		sig, top := crashSignature(text)
 		return props.FailV(sig, "fresh process died: %v\ntop repo frame: %s\n%s", runErr, top, clipLines(tail(text, 6000), 80))
 	}
+	fmt.Fprintf(origStderr, "C20: fresh process gave no verdict (%v):\n%s\n", runErr, tail(text, 2000))
 	return props.DiscardV("harness:child without verdict")
 }
 
@@ -461,7 +506,7 @@ func oracleDrc(c *props.Case) props.Verdict {
 		return props.DiscardV("harness:cannot create temp dir")
 	}
 	defer os.RemoveAll(dir)
-	if err := writeTree(dir, c.Files); err != nil {
+	if err := writeTree(dir, decodeFiles(c.Files)); err != nil {
 		return props.DiscardV("harness:cannot write files")
 	}
 	dev, spoc := devSpoc(c)
@@ -521,7 +566,7 @@ func oracleStatus(c *props.Case) props.Verdict {
 	}
 	defer os.RemoveAll(dir)
 	files := tool.Files{}
-	for k, v := range c.Files {
+	for k, v := range decodeFiles(c.Files) {
 		if k == "status" {
 			files["status/router"] = v
 		} else {
